@@ -87,7 +87,11 @@ func reusePlan(gens int, unrelated int) Plan {
 	}
 	for u := 0; u < unrelated; u++ {
 		p.Sid = append(p.Sid, fmt.Sprint(800+u))
-		p.Pid = append(p.Pid, 32000+u)
+		if u%2 == 1 {
+			p.Pid = append(p.Pid, 31000+65536*(u+1)) // congruent to the reused pid modulo 2^16
+		} else {
+			p.Pid = append(p.Pid, 32000+u)
+		}
 	}
 	return p
 }
@@ -299,7 +303,7 @@ func randReuse(rng *vlib.Rng) (Plan, []HOp) {
 func checkC16(r *vlib.Run) int {
 	st := newCorrStats()
 	var evals int64
-	var discarded, kept, corrKept int64
+	var discarded, kept, corrKept, endedPending int64
 	items := []HOp{}
 	for k := 0; k < 3; k++ {
 		items = append(items, HOp{Kind: opLogin, K: k}, HOp{Kind: opRec, K: k})
@@ -418,6 +422,20 @@ func checkC16(r *vlib.Run) int {
 		for e := rng.Intn(4); e > 0; e-- {
 			cur = insertAt(cur, HOp{Kind: opEv, K: rng.Intn(3), Typ: "USER_CMD"}, rng.Intn(len(cur)+1))
 		}
+		// a pending session may already be over (its credential disposal is
+		// held too) when the cleanup runs: it is kept or dropped by age alone
+		for k := 0; k < 3; k++ {
+			at := -1
+			for q, o := range cur {
+				if o.Kind == opRec && o.K == k {
+					at = q
+				}
+			}
+			if at >= 0 && rng.Chance(40) {
+				cur = insertAt(cur, HOp{Kind: opCD, K: k}, at+1+rng.Intn(len(cur)-at))
+				atomic.AddInt64(&endedPending, 1)
+			}
+		}
 		for c := 1 + rng.Intn(2); c > 0; c-- {
 			g := 1 + rng.Intn(len(cur))
 			cut := rng.Intn(g+1) - 1
@@ -447,6 +465,7 @@ func checkC16(r *vlib.Run) int {
 	r.Set("exhaustive", true)
 	r.Set("exhaustive_max_arrivals", maxLen)
 	r.Set("random_cutoff_histories", nRand)
+	r.Set("random_histories_sessions_with_credential_disposal_placed", int(endedPending))
 	r.Set("pending_halves_predicted_discarded", int(discarded))
 	r.Set("pending_halves_predicted_kept", int(kept))
 	r.Set("correlated_sessions_crossing_a_cleanup", int(corrKept))
